@@ -63,7 +63,8 @@ func (store *Store) accountQueryContext(qb query.Builder, q GetAccountsQuery) (s
 			}
 			switch address := value.(type) {
 			case string:
-				return filterAccountAddress(address, "accounts.address"), nil, nil
+				where, args := filterAccountAddress(address, "accounts.address")
+				return where, args, nil
 			default:
 				return "", nil, newErrInvalidQuery("unexpected type %T for column 'address'", address)
 			}
